@@ -9,6 +9,7 @@ import (
 	"encoding/hex"
 	"fmt"
 	"github.com/shutter-network/rolling-shutter/rolling-shutter/p2pmsg"
+	"github.com/shutter-network/rolling-shutter/rolling-shutter/trace"
 	"os"
 	"runtime"
 	"strings"
@@ -129,6 +130,13 @@ func runCase(env *vlib.Env, idx int, rep *vlib.Reporter) {
 		return
 	}
 	ctx := context.Background()
+	// tracing is a process-wide switch (set at start-up in production): on in half of the cases
+	if (idx/3)%2 == 0 {
+		trace.SetEnabled()
+		rep.Obs("cases_with_tracing_enabled", 1)
+	} else {
+		trace.SetDisabled()
+	}
 	f := gossipnet.AllFlavours[idx%len(gossipnet.AllFlavours)]
 	state := gossipnet.AllDBStates[(idx/len(gossipnet.AllFlavours))%len(gossipnet.AllDBStates)]
 	r := vlib.NewRng(env.Seed, 5, uint64(idx))
